@@ -11,8 +11,8 @@ RULE = ("random histories (file-system operations interleaved with sync full/-S 
         "check) over random configurations (1..6 parity + z, 1..6 disks, block 1/2/4 KiB, hash 16/8/4/2, 1..4 content copies, "
         "1..4 splits, io-cache 1/3/128); after EVERY command each content copy is decoded by the independent parser, the map "
         "invariants are checked and the parity oracle (GF product over the version store) is compared with the parity files "
-        "for every stripe whose allocated blocks are all BLK; sync event logs are checked against the ordering spec "
-        "'every written parity file is fsynced before a content save'. A case = one history; non-trivial when at least one "
+        "for every stripe whose allocated blocks are all BLK; the ordering 'every written parity file is fsynced before a content save' is "
+        "counted on sync event logs as an observation only (no verdict: a process kill cannot lose page-cache data). A case = one history; non-trivial when at least one "
         "synced stripe with data was compared; distinct by (configuration, command sequence).")
 
 SYNC_VARIANTS = [
